@@ -161,6 +161,19 @@ def run(tier, only=None):
                     msg = progs.compare_obs(so, again[0][e], nans, "spec", e)
                 if msg:
                     ck.violation("family:%s:%s" % (e, msg.split(" ")[0]), "family program %d on %s: %s" % (i, e, msg), {"family_case": fam[i], "engine": e, "text": ftexts[i]})
+        # the same under ASan/UBSan: memory errors inside the lazy generator that do not change the result
+        nprop = len(families.property_cases())
+        sub = list(range(nprop)) + list(range(nprop, len(fam), 5 if tier == "thorough" else 23))
+        aeng = ["bb0", "bb2", "lazy2"] if tier == "thorough" else ["bb0", "bb2"]
+        aobs, atexts = progs.run_cases([fam[i] for i in sub], aeng, variant="asan")
+        for k, per in sorted(aobs.items()):
+            so, nans = progs.spec_obs(fam[sub[k]])
+            for e in aeng:
+                nfam += 1
+                msg = progs.compare_obs(so, per[e], nans, "spec", e + "[asan]")
+                if msg:
+                    ck.violation("family:asan:%s:%s" % (e, msg.split(" ")[0]), "family program %d on %s under ASan/UBSan: %s" % (sub[k], e, msg),
+                                 {"family_case": fam[sub[k]], "engine": e, "text": atexts[k], "variant": "asan"})
         ck.setc("family_cases", len(fam)); ck.setc("family_executions", nfam)
     ck.setc("histories", len(hists)); ck.setc("traces_validated_against_impl", len(jobs) + nfam)
     ck.setc("by_interface", dict(byif)); ck.setc("program_pool", len(pool))
